@@ -15,10 +15,11 @@ PROPS = {
                          "(loop invariants with ghost presence maps and pruning witnesses, z3/cvc5) + brute-force bounded comparison",
             "level_text": "run_pelt: for every cost meeting the interface contract and the split inequality, every n>=2m, m>=1, penalty>=0: opt_cost[u]==PF(u) "
                           "for all prefixes u>=m (PF = optimal-partitioning value, lemma L_bellman: PF(t) <= cost of every admissible segmentation, by "
-                          "induction), the returned chain is admissible and realises PF(n) link by link. All obligations incl. the delayed-pruning "
-                          "argument are SMT-discharged for all inputs. PELT._predict wiring (pandas) bounded.",
-            "level_note": "PF is defined by its Bellman equations (definition of the spec function); telescoping of the link equalities to the total cost is "
-                          "a paper step; floats as reals; interface contract of user costs assumed; class glue bounded"},
+                          "induction), the returned chain is admissible and realises PF(n) link by link, and (lemma L_tel, induction) PF(n) equals the total "
+                          "penalised cost SEGTOT of exactly the returned segmentation. All obligations incl. the delayed-pruning argument are "
+                          "SMT-discharged for all inputs. PELT._predict / _transform_scores glue proved with the pandas calls assumed.",
+            "level_note": "PF and SEGTOT are defined by their recurrences (definitions of the spec functions); floats as reals; interface contract of user "
+                          "costs assumed; pandas constructors / check_data assumed in the class glue"},
     "C03": {"category": "proof", "driver": "C03", "claimed": True,
             "technique": "contract-based deductive verification of run_base_capa / optimise_savings / penalise_savings / get_anomalies against the Bellman "
                          "optimum of uninterpreted penalised savings (loop invariants with ghost presence maps and pruning witnesses, z3/cvc5) "
